@@ -21,7 +21,7 @@ ASSUMPTIONS = ["Python list/bytes indexing and slicing is the reference", "strin
 SHARDED = True
 RAISE = "raise"
 
-KINDS = ["list", "astr", "ustr", "vector", "bytes", "range", "wstream", "mapped"]
+KINDS = ["list", "astr", "ustr", "vector", "bytes", "range", "wstream", "mapped", "rrange", "drange"]
 UCH = ["é", "a", "€", "b", "ñ"]
 
 
@@ -42,6 +42,10 @@ def seq(kind, n):
         return "B[%s]" % ",".join(map(str, vals)), [cI(v) for v in vals]
     if kind == "range":
         return "(10 til %d by 10)" % (10 * n + 10), [cI(v) for v in vals]
+    if kind == "rrange":      # a stepped range whose span is NOT a multiple of the step
+        return "(10 til %d by 10)" % (10 * n + 5), [cI(v) for v in vals]
+    if kind == "drange":      # descending, ragged
+        return "(%d til 5 by (-10))" % (10 * n), [cI(v) for v in reversed(vals)]
     if kind == "wstream":
         return "stream([%s])" % ", ".join(map(str, vals)), [cI(v) for v in vals]
     if kind == "mapped":
@@ -54,7 +58,7 @@ def is_str(kind):
 
 
 def is_stream(kind):
-    return kind in ("range", "wstream", "mapped")
+    return kind in ("range", "wstream", "mapped", "rrange", "drange")
 
 
 def str_piece(bs):
